@@ -1,6 +1,7 @@
 import TextxVerif.Wire
 import TextxVerif.Rrel
 import TextxVerif.RrelProvider
+import TextxVerif.RrelCore
 /-! Driver for the RREL evaluation model (C11).
 op:
   {"op":"find","parent":[p|null…],"name":[s|null…],"conf":[[T…]…],
@@ -11,14 +12,20 @@ op:
   ELEM = {"k":"nav","i","name","mode":"c"|"t"|"f","fixed"} | {"k":"parent","i","type"} | {"k":"dots","i","n"}
        | {"k":"br","i","e":SEQ} | {"k":"star","i","e":SEQ}
   SEQ  = {"k":"seq","i","alts":[PATH…]}
+     optional "surface":EXPR — the object tree in the wire form of Drivers/RrelSyntax.lean
+       (EXPR = {"flags":[cp…],"seq":[[ELEM…]…]}, ELEM = ["parent",[cp…]] | ["nav",[cp…],bool,[cp…]|null]
+       | ["br",SEQ] | ["star",SEQ] | ["dots",n]); the answer then carries
+       "core_ok": `RrelSyntax.toCore surface = some top` (same alternatives, same node identities),
+       "flags_ok": importURI / use_proxy of the surface flags equal the fields "m" / "p" of the request
   {"op":"split","text":s,"sep":s} → {"parts":[…]}
   {"op":"session","fuel":n,
-   "providers":[{"top":[PATH…],"split":s|null,"p":bool}…],          -- provider objects
+   "providers":[{"top":[PATH…],"split":s|null,"p":bool,("surface":EXPR)}…],   -- provider objects
    "heaps":[{"parent","name","conf","attrs","unres","extra"}…],     -- the models loaded one after the other
    "calls":[{"prov":i,"h":j,"o":n,"text":s,"rule_split":s|null,"cls":s|null}…]}   -- the references, in order
      → {"results":[{"res":"found","obj","path","proxy","sep"} | {"res":"none","sep"} | {"res":"postponed","sep"}…]}
        | {"err":"fuel"}
-     (each provider object is threaded through its calls: `Provider.call` returns the object after the call)
+     (each provider object is threaded through its calls: `Provider.call` returns the object after the call;
+      with "surface" fields the answer carries "core_ok": all of them have `toCore surface = some top`)
 -/
 open Lean Wire Rrel
 
@@ -56,6 +63,44 @@ partial def parseElem (j : Json) : Option E := do
   | "star" => pure (E.star i (← parseSeq (← getObj? j "e")))
   | _ => none
 end
+
+/-! the object tree (wire form of Drivers/RrelSyntax.lean) -/
+def toStr (xs : List Nat) : RrelSyntax.Str := xs.map Char.ofNat
+
+mutual
+partial def decElem (j : Json) : Option RrelSyntax.Elem := do
+  let xs ← asArr? j
+  let tag ← asStr? (← xs[0]?)
+  match tag with
+  | "parent" => pure (.parent (toStr (← asNatList? (← xs[1]?))))
+  | "nav" =>
+    let n ← asNatList? (← xs[1]?)
+    let c ← asBool? (← xs[2]?)
+    let fj ← xs[3]?
+    let f ← if fj.isNull then pure none else (asNatList? fj).map fun l => some (toStr l)
+    pure (.nav (toStr n) c f)
+  | "br" => pure (.brackets (← decSeq (← xs[1]?)))
+  | "star" => pure (.star (← decSeq (← xs[1]?)))
+  | "dots" => pure (.dots (← asNat? (← xs[1]?)))
+  | _ => none
+partial def decSeq (j : Json) : Option RrelSyntax.Seq := do
+  (← asArr? j).toList.mapM fun p => do (← asArr? p).toList.mapM decElem
+end
+
+def decExpr (j : Json) : Option RrelSyntax.Expr := do
+  let fl ← getNatList? j "flags"
+  let s ← decSeq (← getObj? j "seq")
+  pure ⟨s, toStr fl⟩
+
+/-- `some none`: no "surface" field; `none`: undecodable -/
+def surfaceOf (j : Json) : Option (Option RrelSyntax.Expr) :=
+  match getObj? j "surface" with
+  | none => some none
+  | some sj => (decExpr sj).map some
+
+def coreOk (top : List E) : Option RrelSyntax.Expr → Bool
+  | none => true
+  | some e => RrelSyntax.toCore e == some top
 
 def optNat (j : Json) : Option (Option Nat) :=
   if j.isNull then some none else (asNat? j).map some
@@ -107,11 +152,14 @@ def resJson (extra : List (String × Json)) : Res → Option Json
   | .cont _ => some (Json.mkObj ((("res", "none") : String × Json) :: extra))
   | .fuel => none
 
-def parseProvider (j : Json) : Option Provider := do
+def parseProvider (j : Json) : Option (Provider × Bool) := do
   let top ← (← getArr? j "top").toList.mapM parsePath
   let split ← optStr (← getObj? j "split")
   guard (split != some "")
-  pure ⟨top, split, ← getBool? j "p"⟩
+  let p ← getBool? j "p"
+  let sf ← surfaceOf j
+  let ok := coreOk top sf && (match sf with | none => true | some e => e.useProxy == p)
+  pure (⟨top, split, p⟩, ok)
 
 /-- the references of a session in order; every provider object is replaced by what its call returns -/
 def runSession (fuel : Nat) (heaps : Array Heap) :
@@ -148,17 +196,23 @@ def handle (j : Json) : Json :=
       let cls ← optStr (← getObj? j "cls")
       let fuel ← getNat? j "fuel"
       guard (o < H.depth)
-      pure <| (resJson [] (find H fuel top o ns cls)).getD fuelOut
+      let sf ← surfaceOf j
+      let extra : List (String × Json) := match sf with
+        | none => []
+        | some e => [("core_ok", toJson (coreOk top (some e))),
+            ("flags_ok", toJson (getBool? j "m" == some e.importURI && getBool? j "p" == some e.useProxy))]
+      pure <| (resJson extra (find H fuel top o ns cls)).getD fuelOut
     r.getD badOp
   | some "session" =>
     let r : Option Json := do
       let fuel ← getNat? j "fuel"
-      let ps ← (← getArr? j "providers").mapM parseProvider
+      let pso ← (← getArr? j "providers").mapM parseProvider
+      let ps := pso.map (·.1)
       let hs ← (← getArr? j "heaps").mapM parseHeap
       let cs ← (← getArr? j "calls").toList.mapM parseCall
       let rs ← runSession fuel hs ps cs
       pure <| match rs.mapM (fun (r, sep) => resJson [("sep", toJson sep)] r) with
-        | some l => Json.mkObj [("results", Json.arr l.toArray)]
+        | some l => Json.mkObj [("results", Json.arr l.toArray), ("core_ok", toJson (pso.all (·.2)))]
         | none => fuelOut
     r.getD badOp
   | some "split" =>
